@@ -142,7 +142,8 @@ impl Instruction {
             Instruction::ScalarInt => size_of::<i64>(),
             Instruction::ScalarFloat => size_of::<f64>(),
             Instruction::StringLiteral => size_of::<u32>(),
-            Instruction::NativeFunctionPointer => Instruction::StringLiteral.span(),
+            // same operand as a string literal: the offset of the name in the data section
+            Instruction::NativeFunctionPointer => size_of::<u32>(),
             Instruction::SetGlobalVar => size_of::<VariableId>(),
             Instruction::ReadGlobalVar => size_of::<VariableId>(),
             Instruction::SetLocalVar
